@@ -53,6 +53,7 @@ ASSUMPTIONS = [
 ]
 
 SERIALIZERS = ("serpent", "json", "marshal", "msgpack")
+BUDGET_S = {"quick": 45, "thorough": 780}      # running out ends the search early (evidence: budget_exhausted), never a verdict
 HANG_GUARD_S = 120.0     # never a verdict: hitting it raises HarnessError (exit 2)
 
 # ------------------------------------------------------------------------------------------------
@@ -523,74 +524,63 @@ def run_case(case):
 
 
 # ------------------------------------------------------------------------------------------------
-# generators
+# generators  (kept lean: Hypothesis costs ~0.5 ms per draw here, an execution ~4 ms)
 # ------------------------------------------------------------------------------------------------
-small_values = V.core_values(max_leaves=4)
-small_ints = st.one_of(st.integers(-5, 20), st.sampled_from([2**31, 2**63, 2**64, 2**70, -2**70, 2**100 + 7, 10**40]))
-numbers = st.one_of(small_ints, small_ints, st.floats(allow_nan=False, width=32), st.sampled_from([float("inf"), float("nan"), -0.0, True]))
-pool_keys = st.sampled_from(["a", "b", "k", 1, True, None, "é"])
-dict_keys = st.one_of(pool_keys, pool_keys, pool_keys,
-                      st.sampled_from(["", "__class__", "a b", 0, -1, 2, False]),
+VALUE_POOL = [None, True, False, 0, 1, -1, 7, 255, 2**31, -2**63, 2**64, 2**70, -2**100 - 3, 10**40, 0.0, -0.0, 1.5, -2.25, 1e300, 5e-324,
+              float("inf"), float("-inf"), float("nan"), "", "a", "x y", "é漢", "\x00", "'\"\\", "\U0001f600", "line\nbreak", "None", "__class__",
+              [], [1, 2, 3], [None, [True, [0.5, "deep"]]], ["a", {"b": [1, {"c": None}]}], {}, {"k": "v"}, {"a": 1, "é": [2.5, None], "": {}},
+              {"n": 2**80, "f": float("nan")}, [[], {}, ""], "z" * 300]
+small_values = st.one_of(st.sampled_from(VALUE_POOL), st.sampled_from(VALUE_POOL), st.sampled_from(VALUE_POOL), V.core_values(max_leaves=3))
+NUMBER_POOL = [0, 1, 1, 2, 3, -1, -5, 10, 17, 2**31, 2**63, 2**64, 2**70, -2**70, 2**100 + 7, 10**40, 0.5, -1.25, 1e16, 1e300, -0.0,
+               float("inf"), float("-inf"), float("nan"), True, False]
+numbers = st.one_of(st.sampled_from(NUMBER_POOL), st.sampled_from(NUMBER_POOL), st.integers(-2**66, 2**66), st.floats(allow_nan=False, width=32))
+small_ints = st.sampled_from([0, 1, 2, -1, 7, 42, 2**31, 2**63, 2**64, 2**70, -2**70, 2**100 + 7, 10**40])
+KEY_POOL = ["a", "b", "k", 1, True, None, "é"]
+dict_keys = st.one_of(st.sampled_from(KEY_POOL), st.sampled_from(KEY_POOL),
+                      st.sampled_from(KEY_POOL + ["", "__class__", "a b", 0, -1, 2, False, "\x00", "漢字", 2**70]),
                       st.text(alphabet=st.characters(exclude_categories=("Cs",)), max_size=4))
-messages = st.one_of(st.sampled_from(["boom", "", "é漢", "it's \"quoted\"\\", "\x00", "line\nbreak"]),
+messages = st.one_of(st.sampled_from(["boom", "boom", "", "é漢", "it's \"quoted\"\\", "\x00", "line\nbreak", "\U0001f600"]),
                      st.text(alphabet=st.characters(exclude_categories=("Cs",)), max_size=8))
 kw_names = st.sampled_from(["a", "b", "x", "n", "k", "v", "kind", "_u", "été", "名", "αβ", "class_", "def", "K9"])
 POS_PARAMS = {"incr": ["n"], "append": ["x"], "put": ["k", "v"], "get": ["k"], "fail_if": ["flag", "kind", "msg", "code"]}
 
 
-def _split(draw, name, vals):
-    """positional / keyword split of the arguments of a fixed-signature method"""
+def _fixed(name, *arg_strategies):
+    """call of a fixed-signature method with a generated positional / keyword split of its arguments"""
     names = POS_PARAMS[name]
-    cut = draw(st.integers(0, len(vals)))
-    return [name, list(vals[:cut]), dict(zip(names[cut:], vals[cut:]))]
+
+    def build(t):
+        cut, vals = t[0], t[1:]
+        return [name, list(vals[:cut]), dict(zip(names[cut:], vals[cut:]))]
+    return st.tuples(st.integers(0, len(arg_strategies)), *arg_strategies).map(build)
 
 
-@st.composite
-def benign_call(draw):
-    m = draw(st.sampled_from(["incr", "incr", "incr0", "append", "append", "put", "put", "put", "get", "echo", "echo", "fail_no", "snapshot"]))
-    if m == "incr":
-        return _split(draw, "incr", [draw(numbers)])
-    if m == "incr0":
-        return ["incr", [], {}]
-    if m == "append":
-        return _split(draw, "append", [draw(small_values)])
-    if m == "put":
-        return _split(draw, "put", [draw(dict_keys), draw(small_values)])
-    if m == "get":
-        return _split(draw, "get", [draw(dict_keys)])
-    if m == "echo":
-        return ["echo", draw(st.lists(small_values, max_size=3)), draw(st.dictionaries(kw_names, small_values, max_size=3))]
-    if m == "fail_no":
-        return _split(draw, "fail_if", [draw(st.sampled_from([False, 0, "", None, [], 0.0])), draw(st.sampled_from(FAIL_KINDS)),
-                                        draw(messages), draw(small_ints)])
-    return ["snapshot", [], {}]
+_incr = _fixed("incr", numbers)
+_append = _fixed("append", small_values)
+_put = _fixed("put", dict_keys, small_values)
+_get = _fixed("get", dict_keys)
+_echo = st.tuples(st.lists(small_values, max_size=3), st.dictionaries(kw_names, small_values, max_size=3)).map(lambda t: ["echo", t[0], t[1]])
+_fail_no = _fixed("fail_if", st.sampled_from([False, 0, "", None, [], 0.0]), st.sampled_from(FAIL_KINDS), messages, small_ints)
+benign_call = st.one_of(_incr, _incr, st.just(["incr", [], {}]), _append, _append, _put, _put, _put, _get, _echo, _echo, _fail_no,
+                        st.just(["snapshot", [], {}]))
 
-
-@st.composite
-def failing_call(draw):
-    m = draw(st.sampled_from(["raise", "raise", "raise", "refused", "refused", "missing", "signature"]))
-    if m == "raise":
-        flag = draw(st.sampled_from([True, 1, "x", [0], -1.5, {"a": None}]))
-        return _split(draw, "fail_if", [flag, draw(st.sampled_from(FAIL_KINDS)), draw(messages), draw(small_ints)])
-    if m == "refused":
-        name = draw(st.sampled_from(REFUSED_NAMES))
-        return [name, draw(st.lists(small_values, max_size=2)), draw(st.dictionaries(kw_names, small_values, max_size=1))]
-    if m == "missing":
-        return _split(draw, "get", [draw(st.sampled_from(["missing", "☃", -99, None]))])
-    which = draw(st.integers(0, 6))
-    v = draw(small_values)
-    return [["incr", ["x"], {}], ["incr", [1, 2], {}], ["put", [v], {}], ["incr", [], {"bogus": v}], ["put", [[1], v], {}],
-            ["append", [], {}], ["get", [v], {"self": 1}]][which]
+_raise = _fixed("fail_if", st.sampled_from([True, 1, "x", [0], -1.5, {"a": None}]), st.sampled_from(FAIL_KINDS), messages, small_ints)
+_refused = st.tuples(st.sampled_from(REFUSED_NAMES), st.lists(small_values, max_size=2), st.dictionaries(kw_names, small_values, max_size=1)).map(list)
+_missing = _fixed("get", st.sampled_from(["missing", "☃", -99, None]))
+_signature = st.tuples(st.integers(0, 6), small_values).map(
+    lambda t: [["incr", ["x"], {}], ["incr", [1, 2], {}], ["put", [t[1]], {}], ["incr", [], {"bogus": t[1]}], ["put", [[1], t[1]], {}],
+               ["append", [], {}], ["get", [t[1]], {"self": 1}]][t[0]])
+failing_call = st.one_of(_raise, _raise, _raise, _refused, _refused, _missing, _signature)
 
 
 @st.composite
 def case_strategy(draw, ser, servertype):
     size = draw(st.integers(0, 10))
-    calls = draw(st.lists(benign_call(), min_size=size, max_size=size))
+    calls = [copy.deepcopy(c) for c in draw(st.lists(benign_call, min_size=size, max_size=size))]
     mode = draw(st.sampled_from(["none", "first", "middle", "middle", "last", "any", "any", "two"]))
     n = len(calls)
     if mode != "none":
-        f = draw(failing_call())
+        f = copy.deepcopy(draw(failing_call))
         if n == 0:
             calls = [f]
         elif mode == "first":
@@ -602,7 +592,7 @@ def case_strategy(draw, ser, servertype):
         else:
             calls[draw(st.integers(0, n - 1))] = f
             if mode == "two" and n >= 2:
-                calls[draw(st.integers(0, n - 1))] = draw(failing_call())
+                calls[draw(st.integers(0, n - 1))] = copy.deepcopy(draw(failing_call))
     return {"ser": ser, "servertype": servertype, "oneway": draw(st.booleans()), "calls": calls}
 
 
@@ -642,7 +632,7 @@ def run(ctx):
     stype = ctx.shard.get("servertype", "thread")
     try:
         _served(stype)
-        ctx.search(case_strategy(ser, stype), run_case, ctx.n(450, 4000), nontrivial=_nontrivial, labels=_labels,
-                   name="batch", max_rounds=8)
+        ctx.search(case_strategy(ser, stype), run_case, ctx.n(450, 6000), nontrivial=_nontrivial, labels=_labels,
+                   name="batch", max_rounds=4)
     finally:
         _stop_all()
